@@ -12,11 +12,12 @@ From Verif Require Import Chain.Store.
 From Verif Require Import Chain.Complete.
 From Verif Require Import Chain.Cycles.
 From Verif Require Import Chain.Order.
+From Verif Require Import Chain.Final.
 Local Open Scope string_scope.
 Local Open Scope list_scope.
 
-Lemma compile_closed_unfolded : forall es cx svc ords g,
-  compile es cx svc ords = Ok g ->
+Lemma compile_closed_unfolded : forall es cx svc mo g,
+  compile es cx svc mo = Ok g ->
   lookup (g_start g) (g_nodes g) <> None /\
   (forall a nd b, lookup a (g_nodes g) = Some nd -> In b (children nd) -> lookup b (g_nodes g) <> None) /\
   (forall k nd, lookup k (g_nodes g) = Some nd ->
@@ -29,21 +30,21 @@ Lemma compile_closed_unfolded : forall es cx svc ords g,
   (exists r : nid -> nat,
      forall a nd b, lookup a (g_nodes g) = Some nd -> In b (children nd) -> r b < r a).
 Proof.
-  intros es cx svc ords g H.
-  destruct (compile_closed es cx svc ords g H) as (H1 & H2 & H3 & H4 & (r & H5) & _).
+  intros es cx svc mo g H.
+  destruct (compile_closed' es cx svc mo g H) as (H1 & H2 & H3 & H4 & (r & H5) & _).
   split; [exact H1|]. split; [intros a nd b Hl Hb; apply (H2 a b); exists nd; auto|].
   split; [exact H3|]. split; [exact H4|]. exists r. intros a nd b Hl Hb. apply (H5 a b). exists nd; auto.
 Qed.
 
-Lemma compile_paths : forall es cx svc ords g,
+Lemma compile_paths : forall es cx svc mo g,
   (forall s l, get_splitter es s = Some l -> l <> []) ->
-  compile es cx svc ords = Ok g ->
+  compile es cx svc mo = Ok g ->
   forall a, reachN (g_nodes g) (g_start g) a ->
     (exists t, reachN (g_nodes g) a (NResolver t) /\ In t (g_targets g)) /\
     ((forall b, ~ edge (g_nodes g) a b) -> exists t, a = NResolver t /\ In t (g_targets g)).
 Proof.
-  intros es cx svc ords g Hne H a Ha.
-  destruct (compile_closed es cx svc ords g H) as (H1 & H2 & H3 & H4 & (r & H5) & H6).
+  intros es cx svc mo g Hne H a Ha.
+  destruct (compile_closed' es cx svc mo g H) as (H1 & H2 & H3 & H4 & (r & H5) & H6).
   specialize (H6 Hne).
   assert (Hp : lookup a (g_nodes g) <> None) by (eapply reach_present; eauto).
   split.
@@ -55,21 +56,14 @@ Lemma resolution_follows_walk : forall es cx svc ip R st t st' t',
   AInv es cx svc ip R st -> get_resolver_node es cx st t = Ok (st', t') -> Orbit es cx t t'.
 Proof. intros es cx svc ip R st t st' t' HI H. eapply get_resolver_node_spec; eauto. Qed.
 
-Lemma order_refuted :
-  exists es cx svc o1 o2, compile es cx svc o1 <> compile es cx svc o2.
+(* the loop run with two different visiting orders disagrees on three chained splitters — the reason
+   the ids are sorted; the compiler itself gives one result *)
+Lemma loop_order_would_matter :
+  exists es cx svc o1 o2, compile_ord es cx svc o1 <> compile_ord es cx svc o2.
 Proof.
   exists deep_entries, test_ctx, "a", order_parents_first, order_children_first.
-  intros H. pose proof flatten_order_matters as [H1 H2]. rewrite H in H1. rewrite H1 in H2. discriminate.
+  intros H. pose proof flatten_order_would_matter as [H1 H2]. rewrite H in H1. rewrite H1 in H2. discriminate.
 Qed.
-
-Lemma store_validity_refuted :
-  exists store op,
-    forallb (compiles store) ["a"; "b"; "c"] = true /\
-    write store op = (proposed store op, true) /\
-    compile (proposed store op) test_ctx "a" [] = Err EProtocolMismatch.
-Proof. exists indirect_store, indirect_op. exact guard_one_hop_only. Qed.
-
-
 
 Definition ex_entries : list entry :=
   [ EProxy "http";
